@@ -526,6 +526,19 @@ impl Relation {
         groups: &[&str],
         named_value_clippings: &[(&str, &str, f64)],
     ) -> Self {
+        #[cfg(qrlew_verif)]
+        crate::verif::event(|| {
+            format!(
+                "{{\"ev\":\"l2_clipped_sums\",\"entities\":{:?},\"groups\":{:?},\"clippings\":[{}]}}",
+                entities,
+                groups,
+                named_value_clippings
+                    .iter()
+                    .map(|(n, c, f)| format!("[{:?},{:?},{:e}]", n, c, f))
+                    .collect::<Vec<_>>()
+                    .join(",")
+            )
+        });
         let named_values = named_value_clippings
             .iter()
             .copied()
